@@ -1,7 +1,10 @@
 """hashmap.c -> Gen/HashMapGen.lean : constants and fnv_hash.
    all nine sources -> Gen/HashSitesGen.lean : every hashmap_* call site with the convention its key follows,
    the C typing of the probe index and of the fnv step (clang-14 typed AST), pins of match/wrappers/get_ident,
-   the places that release or rewrite memory a stored key may point into."""
+   the places that release or rewrite memory a stored key may point into.
+   hashmap.c -> Gen/HashMapShapeGen.lean : the inventory of the file (every function with its signature, every macro,
+   nothing else at file scope), the call graph inside it, rehash() recognised statement by statement with its load
+   test and doubling step translated, the load test of get_or_insert_entry translated, the two probe loops pinned."""
 import re, subprocess, os
 from common import *
 
@@ -540,6 +543,171 @@ structure Site where
     return out
 
 
+# ------------------------------------------------------------------------------------------ shape of hashmap.c
+
+# everything defined at file scope in hashmap.c: the signatures in text order (bodies removed) and the macros
+HASHMAP_SIGNATURES = [
+    ('fnv_hash', 'static uint64_t fnv_hash(char *s, int len)'),
+    ('rehash', 'static void rehash(HashMap *map)'),
+    ('match', 'static bool match(HashEntry *ent, char *key, int keylen)'),
+    ('get_entry', 'static HashEntry *get_entry(HashMap *map, char *key, int keylen)'),
+    ('get_or_insert_entry', 'static HashEntry *get_or_insert_entry(HashMap *map, char *key, int keylen)'),
+    ('hashmap_get', 'void *hashmap_get(HashMap *map, char *key)'),
+    ('hashmap_get2', 'void *hashmap_get2(HashMap *map, char *key, int keylen)'),
+    ('hashmap_put', 'void hashmap_put(HashMap *map, char *key, void *val)'),
+    ('hashmap_put2', 'void hashmap_put2(HashMap *map, char *key, int keylen, void *val)'),
+    ('hashmap_delete', 'void hashmap_delete(HashMap *map, char *key)'),
+    ('hashmap_delete2', 'void hashmap_delete2(HashMap *map, char *key, int keylen)'),
+    ('hashmap_test', 'void hashmap_test(void)'),
+]
+HASHMAP_MACROS = ['INIT_SIZE', 'HIGH_WATERMARK', 'LOW_WATERMARK', 'TOMBSTONE']
+
+# rehash(), statement by statement, in order.  (step name, regex over the whitespace-normalised body)
+REHASH_STEPS = [
+    ('countLive',
+     r'int nkeys = 0; for \(int i = 0; i < map->capacity; i\+\+\) '
+     r'if \(map->buckets\[i\]\.key && map->buckets\[i\]\.key != TOMBSTONE\) nkeys\+\+; '),
+    ('growWhile',
+     r'int cap = map->capacity; '
+     r'while \(\(nkeys \* (?P<gscale>\d+)\) / cap (?P<gcmp>>=|>) (?P<gmark>[A-Z_]+|\d+)\) cap = cap \* (?P<gfactor>\d+); '),
+    ('assertCapPositive', r'assert\(cap > 0\); '),
+    ('freshTable',
+     r'HashMap map2 = \{\}; map2\.buckets = calloc\(cap, sizeof\(HashEntry\)\); map2\.capacity = cap; '),
+    ('reinsertInBucketOrder',
+     r'for \(int i = 0; i < map->capacity; i\+\+\) \{ HashEntry \*ent = &map->buckets\[i\]; '
+     r'if \(ent->key && ent->key != TOMBSTONE\) hashmap_put2\(&map2, ent->key, ent->keylen, ent->val\); \} '),
+    ('assertUsedEqLive', r'assert\(map2\.used == nkeys\); '),
+    ('overwriteMap', r'\*map = map2; '),
+]
+
+GET_ENTRY_BODY = ('if (!map->buckets) return NULL; uint64_t hash = fnv_hash(key, keylen); '
+                  'for (int i = 0; i < map->capacity; i++) { HashEntry *ent = &map->buckets[(hash + i) % map->capacity]; '
+                  'if (match(ent, key, keylen)) return ent; if (ent->key == NULL) return NULL; } unreachable();')
+
+INSERT_PREAMBLE = (r'if \(!map->buckets\) \{ map->buckets = calloc\((?P<init>[A-Z_]+|\d+), sizeof\(HashEntry\)\); '
+                   r'map->capacity = (?P<init2>[A-Z_]+|\d+); \} '
+                   r'else if \(\(map->used \* (?P<hscale>\d+)\) / map->capacity (?P<hcmp>>=|>) (?P<hmark>[A-Z_]+|\d+)\) '
+                   r'\{ rehash\(map\); \} ')
+INSERT_LOOP = ('uint64_t hash = fnv_hash(key, keylen); HashEntry *tomb = NULL; '
+               'for (int i = 0; i < map->capacity; i++) { HashEntry *ent = &map->buckets[(hash + i) % map->capacity]; '
+               'if (match(ent, key, keylen)) return ent; '
+               'if (ent->key == TOMBSTONE) { if (!tomb) tomb = ent; continue; } '
+               'if (ent->key == NULL) { if (tomb) ent = tomb; else map->used++; ent->key = key; ent->keylen = keylen; return ent; } } '
+               'unreachable();')
+
+
+def lean_operand(tok, consts):
+    """a watermark operand of a translated condition: a macro of hashmap.c (by name, value from HashMapGen) or a literal"""
+    if re.fullmatch(r'\d+', tok):
+        return str(int(tok))
+    if tok in consts:
+        return 'ChibiVerif.Gen.HashMap.' + tok
+    raise ExtractError(f'operand {tok} of a load-factor test is neither a literal nor one of {sorted(consts)}')
+
+
+def generate_shape(repo, consts):
+    """Gen/HashMapShapeGen.lean: what hashmap.c defines (every function, every macro), who calls whom inside it, and
+    the statement sequence of rehash() with its two arithmetic conditions translated.  Anything else at file scope, a
+    new function, a function with another signature, a re-shaped rehash()/probe loop raises ExtractError."""
+    raw = strip_comments(read(repo, 'hashmap.c'))
+    fns = functions(raw)
+    names = [f[0] for f in fns]
+    want = [n for n, _ in HASHMAP_SIGNATURES]
+    if names != want:
+        extra = [n for n in names if n not in want]
+        missing = [n for n in want if n not in names]
+        raise ExtractError(f'hashmap.c no longer defines exactly the functions the model covers: new {extra}, missing {missing}, '
+                           f'order {names}')
+    # file-scope text outside the function bodies: preprocessor lines + the signatures, nothing else
+    residue, pos = [], 0
+    for f in fns:
+        residue.append(raw[pos:f[2]])
+        pos = f[3] + 1
+    residue.append(raw[pos:])
+    text = ''.join(residue)
+    macros, rest = [], []
+    for line in text.splitlines():
+        st = line.strip()
+        if st.startswith('#'):
+            m = re.fullmatch(r'#\s*define\s+([A-Za-z_]\w*)(\(.*?\))?\s+.*', st)
+            if m:
+                if m.group(2):
+                    raise ExtractError(f'hashmap.c defines a function-like macro: {st}')
+                macros.append(m.group(1))
+            elif not re.fullmatch(r'#\s*include\s+"chibicc.h"', st):
+                raise ExtractError(f'preprocessor line in hashmap.c the translator does not understand: {st}')
+            if st.endswith('\\'):
+                raise ExtractError(f'continued preprocessor line in hashmap.c: {st}')
+        else:
+            rest.append(st)
+    if macros != HASHMAP_MACROS:
+        raise ExtractError(f'hashmap.c defines the macros {macros}, expected {HASHMAP_MACROS}')
+    sigs = re.sub(r'\s+', ' ', ' '.join(rest)).strip()
+    if sigs != ' '.join(s for _, s in HASHMAP_SIGNATURES):
+        raise ExtractError(f'file-scope text of hashmap.c outside the function bodies is not the twelve signatures: {sigs}')
+    body = {f[0]: re.sub(r'\s+', ' ', raw[f[2] + 1:f[3]]).strip() for f in fns}
+    # rehash(): the statement sequence
+    rest_, got, steps = body['rehash'] + ' ', {}, []
+    for name, rx in REHASH_STEPS:
+        m = re.match(rx, rest_)
+        if not m:
+            raise ExtractError(f'rehash(): statement `{name}` not found where the translator expects it; remaining text: {rest_[:160]}')
+        got.update(m.groupdict())
+        steps.append(name)
+        rest_ = rest_[m.end():]
+    if rest_.strip():
+        raise ExtractError(f'rehash(): statements after `*map = map2;` the translator does not understand: {rest_[:160]}')
+    # the probe loops
+    if body['get_entry'] != GET_ENTRY_BODY:
+        raise ExtractError('get_entry has a body the translator does not understand: ' + body['get_entry'])
+    m = re.match(INSERT_PREAMBLE, body['get_or_insert_entry'] + ' ')
+    if not m:
+        raise ExtractError('get_or_insert_entry: allocation / load-factor preamble not understood: ' + body['get_or_insert_entry'][:240])
+    got.update(m.groupdict())
+    if body['get_or_insert_entry'][m.end():].strip() != INSERT_LOOP:
+        raise ExtractError('get_or_insert_entry: probe loop not understood: ' + body['get_or_insert_entry'][m.end():])
+    if got['init'] != got['init2'] or lean_operand(got['init'], consts) != 'ChibiVerif.Gen.HashMap.INIT_SIZE':
+        raise ExtractError(f"get_or_insert_entry allocates {got['init']} buckets but sets capacity = {got['init2']} (expected INIT_SIZE twice)")
+    # who calls whom inside hashmap.c (hashmap_test left out: it is the suite's test, not table code)
+    graph = []
+    for n in want:
+        if n == 'hashmap_test':
+            continue
+        callees = [c for c in want if c != 'hashmap_test' and re.search(r'(?<![\w.>])' + c + r'\s*\(', body[n])]
+        graph.append((n, callees))
+    cmpl = {'>=': '≥', '>': '>'}
+    out = HEADER.format(tool='hashmap.py', src='hashmap.c')
+    out += 'import ChibiVerif.Gen.HashMapGen\n\nnamespace ChibiVerif.Gen.HashMapShape\n\n'
+    out += '/-- every function hashmap.c defines, in text order (signatures are pinned by the translator) -/\n'
+    out += 'def functionsDefined : List String := [' + ', '.join(lean_str(n) for n in names) + ']\n\n'
+    out += '/-- every macro hashmap.c defines (all object-like) -/\n'
+    out += 'def macrosDefined : List String := [' + ', '.join(lean_str(n) for n in macros) + ']\n\n'
+    out += '/-- calls from one function of hashmap.c to another (caller, callees in definition order) -/\n'
+    out += 'def callGraph : List (String × List String) := [\n' + ',\n'.join(
+        f'  ({lean_str(n)}, [' + ', '.join(lean_str(c) for c in cs) + '])' for n, cs in graph) + ']\n\n'
+    out += '/-- the statements of `rehash`, in order, as recognised one by one by the translator -/\n'
+    out += 'inductive RehashStep where\n'
+    out += '  | countLive              -- nkeys = number of buckets whose key is neither NULL nor TOMBSTONE\n'
+    out += '  | growWhile              -- cap = capacity; while (rehashGrowCond nkeys cap) cap = rehashGrowNext cap\n'
+    out += '  | assertCapPositive      -- assert(cap > 0)\n'
+    out += '  | freshTable             -- HashMap map2 = {}; calloc(cap, ...) buckets; map2.capacity = cap\n'
+    out += '  | reinsertInBucketOrder  -- for i = 0 … capacity-1: live entries go through hashmap_put2(&map2, …)\n'
+    out += '  | assertUsedEqLive       -- assert(map2.used == nkeys)\n'
+    out += '  | overwriteMap           -- *map = map2\n'
+    out += '  deriving Repr, DecidableEq\n\n'
+    out += 'def rehashSteps : List RehashStep := [' + ', '.join('.' + s for s in steps) + ']\n\n'
+    out += f"/-- `while ((nkeys * {got['gscale']}) / cap {got['gcmp']} {got['gmark']})` of rehash -/\n"
+    out += (f"def rehashGrowCond (nkeys cap : Nat) : Bool :=\n  decide (nkeys * {int(got['gscale'])} / cap "
+            f"{cmpl[got['gcmp']]} {lean_operand(got['gmark'], consts)})\n\n")
+    out += f"/-- `cap = cap * {got['gfactor']};` of rehash -/\n"
+    out += f"def rehashGrowNext (cap : Nat) : Nat := cap * {int(got['gfactor'])}\n\n"
+    out += f"/-- `else if ((map->used * {got['hscale']}) / map->capacity {got['hcmp']} {got['hmark']})` of get_or_insert_entry -/\n"
+    out += (f"def needRehash (used cap : Nat) : Bool :=\n  decide (used * {int(got['hscale'])} / cap "
+            f"{cmpl[got['hcmp']]} {lean_operand(got['hmark'], consts)})\n\n")
+    out += 'end ChibiVerif.Gen.HashMapShape\n'
+    return out
+
+
 def generate(repo):
     src = strip_comments(read(repo, 'hashmap.c'))
     consts = {}
@@ -585,4 +753,4 @@ def fnvHashC (s : List Int8) : UInt64 := s.foldl fnvStepC 0x{offset:x}
 
 end ChibiVerif.Gen.HashSites
 '''
-    return {'HashMapGen.lean': out, 'HashSitesGen.lean': sites}
+    return {'HashMapGen.lean': out, 'HashSitesGen.lean': sites, 'HashMapShapeGen.lean': generate_shape(repo, consts)}
